@@ -271,6 +271,9 @@ impl Net {
                 self.connects.iter().map(|(a, b)| format!("{}>{}", a, b)).collect::<Vec<_>>().join(",")
             ));
         }
+        if self.connects.is_empty() && self.skipacc != Acc::Add {
+            s.push_str(&format!("|skipacc:{}", self.skipacc.name()));
+        }
         if !self.loopbacks.is_empty() {
             s.push_str(&format!(
                 "|loop:{}:{}",
@@ -296,6 +299,8 @@ impl Net {
                     let (a, b) = c.split_once('>').unwrap();
                     net.connects.push((a.parse().unwrap(), b.parse().unwrap()));
                 }
+            } else if let Some(r) = p.strip_prefix("skipacc:") {
+                net.skipacc = Acc::parse(r);
             } else if let Some(r) = p.strip_prefix("loop:") {
                 let (acc, list) = r.split_once(':').unwrap();
                 net.loopacc = Acc::parse(acc);
